@@ -54,7 +54,7 @@ SIDOutcome(x) == IF x.len < 8 THEN "err" ELSE IF x.have < 4 * x.subs THEN "err" 
 (* option family it belongs to and is ignored by every other family; nil   *)
 (* options are skipped.                                                    *)
 OptTokens == {"nil", "code0", "code53", "app7", "app30", "diag", "matched", "attrs0", "attrs2",
-              "crit", "ctlval", "grace0", "grace5", "expire0", "expire9", "err0", "err8", "err9", "errbig",
+              "crit", "ctlval", "grace0", "grace5", "expire0", "expire9", "err0", "err8", "err9", "errbig", "errhuge", "errmax",
               "label", "basedn", "filter", "scope2", "writer", "readtimeout", "onclose"}
 Constructors == {"NewResponse", "NewBindResponse", "NewExtendedResponse", "NewSearchDoneResponse", "NewSearchResponseEntry",
                  "NewModifyResponse", "NewControlString", "NewControlStringEmpty", "NewControlManageDsaIT", "NewControlMicrosoftNotification",
@@ -73,6 +73,7 @@ Fold3(opts, acc) ==
                [] o = "expire0" -> [acc EXCEPT !.e = 0] [] o = "expire9" -> [acc EXCEPT !.e = 9]
                [] o = "err0" -> [acc EXCEPT !.c = 0] [] o = "err8" -> [acc EXCEPT !.c = 8]
                [] o = "err9" -> [acc EXCEPT !.c = 9] [] o = "errbig" -> [acc EXCEPT !.c = 300]
+               [] o = "errhuge" -> [acc EXCEPT !.c = 400] [] o = "errmax" -> [acc EXCEPT !.c = 500]      \* 2^64-2, 2^64-1 (the argument is a uint)
                [] OTHER -> acc)
 Behera(opts) == Fold3(opts, [g |-> -1, e |-> -1, c |-> -1])
 Neg1 == -1
